@@ -279,6 +279,24 @@ var ruleQuotedLabels = &core.Rule{ID: "R12.11", Min: 4,
 					}
 					break
 				}
+				// the reading sits in a helper: what its callers hand it decides
+				if p, isP := src.(*ssa.Parameter); isP && f != cm.xml {
+					var args []ssa.Value
+					for _, cf := range belowSniffer(cm.xml) {
+						for _, cc := range core.Calls(cf) {
+							if cc.Common().StaticCallee() == f {
+								for i, fp := range f.Params {
+									if fp == p && i < len(cc.Common().Args) {
+										args = append(args, cc.Common().Args[i])
+									}
+								}
+							}
+						}
+					}
+					if len(args) == 1 {
+						src = args[0]
+					}
+				}
 				switch x := src.(type) {
 				case *ssa.Parameter:
 					s.Bad(key, c.Pos(ci.Pos()), "the XML decoder is given the input as it is: a document that begins with whitespace has character data as its first token, the declaration behind it is not seen and its encoding is lost")
@@ -330,6 +348,18 @@ var ruleQuotedLabels = &core.Rule{ID: "R12.11", Min: 4,
 					continue
 				}
 				want := "; \t\n\f\r"
+				// a separator that an earlier Cut / Index of the same function already split on counts with the set
+				for _, oc := range core.Calls(f) {
+					occ := oc.Common()
+					if core.CalleeIs(occ, "strings", "Cut") || core.CalleeIs(occ, "strings", "Index") || core.CalleeIs(occ, "strings", "IndexByte") {
+						if k, ok := core.ConstString(occ.Args[1]); ok && len(k) == 1 && !strings.Contains(set, k) && strings.Contains(want, k) {
+							set += k
+						}
+						if k, ok := core.ConstInt(occ.Args[1]); ok && k < 0x80 && !strings.ContainsRune(set, rune(k)) && strings.ContainsRune(want, rune(k)) {
+							set += string(rune(k))
+						}
+					}
+				}
 				same := len(set) == len(want)
 				for _, w := range want {
 					if !strings.ContainsRune(set, w) {
